@@ -68,6 +68,18 @@ def synthetic(rng, infeasible=False):
         Ad = np.asarray(A.todense()); Ad = np.insert(Ad, pos_, 0., axis=0); A = sp.lil_matrix(Ad)
         b = np.insert(b, pos_, bb); ct = ct[:pos_] + t_ + ct[pos_:]
         empty_row = {'row': pos_, 'type': t_, 'b': bb, 'violated': bool(viol)}
+    all_fixed = None
+    if not infeasible and not frac_fixed and rng.random() < 0.1:
+        # EVERY variable pinned (l == u, e.g. a fix_time_window covering the whole horizon): the only candidate point either satisfies all rows
+        # or - moved in one coordinate - breaks some of them; nothing is left to optimise, but the rows still have to be respected
+        xf = x0.copy()
+        moved = rng.random() < 0.6
+        if moved:
+            nb = np.where(~isb)[0]
+            j = int(nb[int(rng.integers(len(nb)))]) if len(nb) else int(rng.integers(n))
+            xf[j] += 1.
+        l = xf.copy(); u = xf.copy()
+        all_fixed = {'moved_off_the_rows': bool(moved)}
     if infeasible:
         a = np.round(rng.uniform(-2, 2, n), 1); a[a == 0] = 1.
         mx = float(np.sum(np.where(a > 0, a * u, a * l)))
@@ -96,7 +108,7 @@ def synthetic(rng, infeasible=False):
         mp = mp.drop(columns=['bool'])
     op = OptimProblem(c=c, l=l.astype(float), u=u.astype(float), A=A, b=b, cType=ct, mapping=mp)
     desc = {'c': c.tolist(), 'l': l.tolist(), 'u': u.tolist(), 'A': np.asarray(A.todense()).round(3).tolist(), 'b': np.round(b, 4).tolist(),
-            'cType': ct, 'bool': np.where(isb)[0].tolist(), 'map_index': [int(i) for i in mp.index], 'boolean_fixed_to_fraction': frac_fixed, 'one_sided_infinite_bounds': one_sided, 'empty_row': empty_row}
+            'cType': ct, 'bool': np.where(isb)[0].tolist(), 'map_index': [int(i) for i in mp.index], 'boolean_fixed_to_fraction': frac_fixed, 'one_sided_infinite_bounds': one_sided, 'empty_row': empty_row, 'all_fixed': all_fixed}
     return op, desc, mip
 
 
@@ -200,6 +212,8 @@ def run_case(rng, tier, case):
                 op, desc, mip = synthetic(rng, infeasible=(mode == 'infeasible'))
                 solver = gen.pick(rng, MIP_SOLVERS if mip else LP_SOLVERS)
                 case.key = env.spec_key(desc); case.sample = dict(desc, solver=solver); case.spec = case.sample
+                if desc.get('all_fixed'):
+                    case.feature('all_variables_fixed:' + ('off_the_rows' if desc['all_fixed']['moved_off_the_rows'] else 'feasible'))
                 soft = mip and rng.random() < 0.1
                 try:
                     kw = {}
